@@ -7,7 +7,7 @@
     proofs in Sim/ImplSimProofs.v, Sim/ProtocolProofs.v, Sim/C07Main.v. *)
 From Coq Require Import List Arith Bool.
 From OW Require Import Sim.SimAux Sim.Graph Sim.RefSim Sim.ImplSim Sim.Sched Sim.Protocol
-     Sim.ProtocolProofs Sim.ImplSimProofs Sim.C07Main.
+     Sim.ProtocolProofs Sim.ImplSimProofs Sim.C07Main Sim.SplitProtocol Sim.SplitProtocolProofs.
 Import ListNotations.
 
 (** ow-sim (canonical schedule: every writer runs as soon as it is spawned) =
@@ -156,6 +156,25 @@ Theorem C07_impl_eq_ref_split_refuted :
                  option_map (@mo_outputs _ _) (nth_error f 2) = option_map (@mo_outputs _ _) (nth_error r 2)).
 Proof. exact impl_eq_ref_split_refuted. Qed.
 Print Assumptions C07_impl_eq_ref_split_refuted.
+
+(** External writer process of a model named in [-outputs model=file]
+    (Sim/SplitProtocol.v).  If the model's LAST batch is non-empty, run_simulation
+    returns only after the child has written every generation that has nodes: *)
+Theorem C07_split_exit_complete :
+  forall (counts : list nat) (s : xstate),
+    xreachable counts s -> x_exited s = true -> 0 < xcount counts (xG counts - 1) ->
+    x_file s = nonempty_gens counts (xG counts) /\ x_queue s = [].
+Proof. exact split_exit_complete. Qed.
+Print Assumptions C07_split_exit_complete.
+
+(** REFUTED when the last batch is empty: WriteData returns at gen.Count == 0
+    before the Close()/Wait() of the last generation, so the process can exit
+    while a message that was sent is still unwritten (counts = [1; 0]). *)
+Theorem C07_split_exit_refuted :
+  exists counts s, xreachable counts s /\ x_exited s = true /\
+                   x_file s = [] /\ x_queue s = [0] /\ nonempty_gens counts (xG counts) = [0].
+Proof. exact split_exit_refuted. Qed.
+Print Assumptions C07_split_exit_refuted.
 
 (** Non-vacuity: a concrete valid 3-generation graph with fan-in (two links into
     one input variable) and fan-out satisfies the hypotheses; both semantics give
